@@ -273,6 +273,9 @@ class ExecutionState:
         # Operations whose parent has completed
         self._parent_done: set[str] = set()
 
+        # Contexts whose completion (SUCCEED/FAIL) has been handed over
+        self._completed_contexts: set[str] = set()
+
         # Protects parent_to_children and parent_done
         self._parent_done_lock: Lock = Lock()
         self._replay_status: ReplayStatus = replay_status
@@ -477,8 +480,13 @@ class ExecutionState:
                 ):
                     self._mark_orphans(operation_update.operation_id)
 
-                # Check if this operation's parent is done
-                if operation_update.operation_id in self._parent_done:
+                # Check if this operation's parent is done. An operation that is seen for the first
+                # time is not marked yet, so also look at the context it is created under.
+                if (
+                    operation_update.operation_id in self._parent_done
+                    or operation_update.parent_id in self._parent_done
+                    or operation_update.parent_id in self._completed_contexts
+                ):
                     logger.debug(
                         "Rejecting checkpoint for operation %s - parent is done",
                         operation_update.operation_id,
@@ -596,6 +604,7 @@ class ExecutionState:
 
         # Mark all descendants as orphaned
         self._parent_done.update(all_descendants)
+        self._completed_contexts.add(context_id)
         logger.debug(
             "Marked %d descendants as parent-done for context %s",
             len(all_descendants),
